@@ -476,6 +476,38 @@ theorem integer_shift_is_roll (N : ℕ) [NeZero N] (a : ZMod N) (x : ZMod N → 
   funext k
   exact (zmod_dft_shift N x a k).symm
 
+/-- `np.fft.fftfreq(N, 1.0)` at index `k`: `k/N` for the first `⌈N/2⌉` indices, `(k − N)/N` after -/
+noncomputable def unitFreq (N : ℕ) (k : ZMod N) : ℝ :=
+  if k.val < (N + 1) / 2 then (k.val : ℝ) / N else ((k.val : ℝ) - N) / N
+
+/-- the generated shift phase at an fftfreq frequency and a whole-pixel displacement is the DFT character -/
+theorem cexp_shiftPhase_eq_stdAddChar (N : ℕ) [NeZero N] (a : ℤ) (k : ZMod N) :
+    cexp (shiftPhase (unitFreq N k) (a : ℝ)) = (ZMod.stdAddChar (-((a : ZMod N) * k)) : ℂ) := by
+  have hN : (N : ℂ) ≠ 0 := by exact_mod_cast NeZero.ne N
+  have hk : -((a : ZMod N) * k) = ((-(a * (k.val : ℤ)) : ℤ) : ZMod N) := by
+    push_cast
+    rw [ZMod.natCast_zmod_val]
+  rw [hk, ZMod.stdAddChar_coe, cexp_eq]
+  unfold shiftPhase unitFreq
+  split_ifs with h
+  · congr 1
+    push_cast
+    field_simp
+  · -- the extra `+2π·a` is a full period
+    have : ((((-2 : ℝ) * Real.pi * (((k.val : ℝ) - N) / N) * (a : ℝ) : ℝ) : ℂ) * Complex.I)
+        = 2 * Real.pi * Complex.I * ((-(a * (k.val : ℤ)) : ℤ) : ℂ) / N + (a : ℤ) * (2 * Real.pi * Complex.I) := by
+      push_cast
+      field_simp
+      ring
+    rw [this, Complex.exp_add, Complex.exp_int_mul_two_pi_mul_I, mul_one]
+
+/-- Whole-pixel `fft_shift` with the kernel the code builds (generated phase at the `fftfreq` frequencies) is the periodic
+roll by `a` pixels (1-D DFT on `ZMod N`; the 2-D kernel is the product of two such factors). -/
+theorem integer_shift_is_roll_code (N : ℕ) [NeZero N] (a : ℤ) (x : ZMod N → ℂ) :
+    (zmodPair N).mult (fun k => cexp (shiftPhase (unitFreq N k) (a : ℝ))) x = fun j => x (j - (a : ZMod N)) := by
+  simp only [cexp_shiftPhase_eq_stdAddChar]
+  exact integer_shift_is_roll N (a : ZMod N) x
+
 end Shift
 
 /-! ## Part 4 — finding F16: real input, even source size -/
